@@ -58,12 +58,11 @@ Section Top.
   Theorem request_fidelity st sigs s args fuel :
     wf_universe (ext_universe U s) = true ->
     find_sig sigs (sg_name s) = Some s ->
-    st_text_bin st = false ->
     members_conf c (ext_universe U s) rpoly (sg_params s) args = true ->
     (vdepth (DObj (in_cid U) args) <= fuel)%nat ->
     serve_request c U fuel sigs (sreq c U st s args) = SCall (map vnorm args).
   Proof.
-    intros Hwf Hfind Hst Hm Hf. set (U' := ext_universe U s) in *.
+    intros Hwf Hfind Hm Hf. set (U' := ext_universe U s) in *.
     pose proof (wf_cls U' (in_cid U) _ Hwf (ext_flat_in s)) as Hcw. unfold cls_wf in Hcw.
     fold U' in Hcw. unfold U' in Hcw at 1 2. rewrite ext_flat_in, ext_name_in in Hcw.
     apply andb_true_iff in Hcw as [_ Hsn].
@@ -77,7 +76,7 @@ Section Top.
     rewrite Hmk', Hfind. fold U'.
     change body_lookup_both_key_forms with true. cbn [negb]. rewrite andb_false_r.
     pose proof (d2o_object c U' rpoly st (leaf_dec c) Hwf rpoly_iw
-                           (fun nillable k l => leaf_dec_spec c st nillable k l Hst)
+                           (fun nillable k l => leaf_dec_spec c st nillable k l)
                            (leaf_dec_null c) (norm_key_spec c st) (key_name_spec c st)
                            (in_cid U) (in_cid U) args fuel
                            (obj_conf U' rpoly (in_cid U) _ args (ext_flat_in s) Hm) Hf) as HD.
@@ -176,7 +175,6 @@ Section Top.
   Theorem call_fidelity st sigs s (f : list dval -> list dval) args fuel :
     wf_universe (ext_universe U s) = true ->
     find_sig sigs (sg_name s) = Some s ->
-    st_text_bin st = false ->
     negb (c_list c) || c_iw c = true ->
     members_conf c (ext_universe U s) rpoly (sg_params s) args = true ->
     members_conf c (ext_universe U s) rpoly (sg_results s) (f (map vnorm args)) = true ->
@@ -188,7 +186,7 @@ Section Top.
       /\ j = sresp c U spyne_style s (f (map vnorm args))
       /\ sresp_dec c U fuel s j = Ok (map vnorm (f (map vnorm args))).
   Proof.
-    intros Hwf Hfind Hst Hresp Ha Hr Hf1 Hf2.
+    intros Hwf Hfind Hresp Ha Hr Hf1 Hf2.
     destruct (response_fidelity s (f (map vnorm args)) fuel Hwf Hresp Hr Hf2) as [H1 H2].
     eexists. split; [apply request_fidelity; assumption|]. split; [exact H1|]. split; [reflexivity|exact H2].
   Qed.
@@ -215,13 +213,12 @@ Section Top.
     c_iw c = true ->
     wf_universe (ext_universe U s) = true ->
     find_sig sigs (sg_name s) = Some s ->
-    st_text_bin st = false ->
     members_conf c (ext_universe U s) false (sg_params s) args = true ->
     rpc_args_ok (sg_params s) args ->
     (vdepth (DObj (in_cid U) args) <= fuel)%nat ->
     rpc_request c U fuel sigs (srpc_req c U st msgid s args) = SCall (map vnorm args).
   Proof.
-    intros Hiw Hwf Hfind Hst Hm Hok Hf. set (U' := ext_universe U s) in *.
+    intros Hiw Hwf Hfind Hm Hok Hf. set (U' := ext_universe U s) in *.
     pose proof (wf_cls U' (in_cid U) _ Hwf (ext_flat_in s)) as Hcw. unfold cls_wf in Hcw.
     fold U' in Hcw. unfold U' in Hcw at 1 2. rewrite ext_flat_in, ext_name_in in Hcw.
     apply andb_true_iff in Hcw as [_ Hsn].
@@ -235,7 +232,7 @@ Section Top.
       rewrite (utf8_bytes_dec _ Hsn). reflexivity. }
     rewrite Hname, Hfind. fold U'. rewrite spositional_eq.
     pose proof (d2o_positional c U' false st (leaf_dec c) Hwf (fun E => ltac:(discriminate E))
-                               (fun nillable k l => leaf_dec_spec c st nillable k l Hst)
+                               (fun nillable k l => leaf_dec_spec c st nillable k l)
                                (leaf_dec_null c) (norm_key_spec c st) (key_name_spec c st)
                                (in_cid U) args (sg_params s) fuel Hiw (ext_flat_in s)) as HD.
     rewrite mconf_eq in HD. specialize (HD Hm (fun f x Hin E => rpc_args_ok_in _ _ f x Hok Hin E) Hf).
